@@ -10,7 +10,8 @@ namespace PvModel.Trig
 
 /-- 01_concepts.md "Block Event": a transaction event's criteria are met by an ABCI event of the
 same type carrying every listed attribute (an empty value matches any value); a height/time event's
-by a block height/time greater than or equal to the defined value. -/
+by a block height/time greater than or equal to the defined value (times are full timestamps, in
+unix nanoseconds: a block in the same second but before the trigger's time does not meet it). -/
 def conditionMet (ev : Event) (events : List AbciEvent) (height time : Nat) : Bool :=
   match ev with
   | .tx name attrs => events.any fun e =>
@@ -40,6 +41,21 @@ def place (s : State) (id : Nat) : Place :=
 /-- per-block caps of 06_begin_and_end_blocker.md -/
 def withinCaps (xs : List Exec) : Bool :=
   decide (xs.length ≤ MaximumActions) && decide ((xs.map (·.gas)).sum ≤ MaximumQueueGas)
+
+/-- Gas consumed by the actions of one executed trigger that ran to their end (succeeded or returned
+an error; the action the gas meter cut off is not counted: what it did is rolled back and how far
+it got is not a consumption the creator can be charged beyond the limit).  `cost i` = gas action
+`i` consumed, `outs` = the per-action outcomes, `i` = index of the first of them. -/
+def completedCost (cost : Nat → Nat) : List Outcome → Nat → Nat
+  | [], _ => 0
+  | o :: os, i => (if o = .oog then 0 else cost i) + completedCost cost os (i + 1)
+
+/-- 01_concepts.md "Gas Payment" / 06_begin_and_end_blocker.md: a trigger's actions run on the gas
+its creator prepaid.  The work done by its completed actions stays within the stored limit — in
+particular a trigger all of whose actions succeeded consumed at most its limit, and one whose
+actions together need more fails as a whole. -/
+def withinPrepaid (limit : Nat) (cost : Nat → Nat) (outs : List Outcome) : Bool :=
+  decide (completedCost cost outs 0 ≤ limit)
 
 /-- every required signer of every action signed the creating transaction -/
 def signersCovered (m : CreateMsg) : Bool :=
